@@ -21,6 +21,8 @@ import Bee2V.C05.ModelGf2
 import Bee2V.C05.ModelZm
 import Bee2V.C05.ModelPpDiv
 import Bee2V.C05.ModelGf2Ops
+import Bee2V.C05.ModelPpModOps
+import Bee2V.C05.ModelGcdW
 namespace Bee2V.C05.Drv
 open Bee2V.Proto Bee2V.C05 Bee2V.C05.Spec
 
@@ -666,18 +668,29 @@ def modelW (W : Nat) (f : String) (args : List String) : Option String :=
     some (join [hl W r.1, hl W r.2])
   | "zzMod", [_, a, b] => do let a ← wl W a; let b ← wl W b; some (hl W (zzMod W a b))
   -- ModelGcd (binary algorithms, value level)
-  | "zzGCD", [a, b] => do let (n, a) ← pw W a; let (m, b) ← pw W b; some (hw W (min n m) (zzGCDV a b))
+  | "zzGCD", [a, b] => do
+    -- word-level model (ModelGcdW), cross-checked against the value-level one (ModelGcd)
+    let a ← wl W a; let b ← wl W b
+    let d := zzGCDW W a b
+    if val W d != zzGCDV (val W a) (val W b) then some "model-levels-differ" else some (hl W d)
   | "zzExGCD?", [a, b, d, da, db] => do
     let (n, a) ← pw W a; let (m, b) ← pw W b
     let (k, d) ← pw W d; let (m1, da) ← pw W da; let (n1, db) ← pw W db
     let r := zzExGCDV a b
     some (b01 (k == min n m && m1 == m && n1 == n && d == r.1 && da == r.2.1 && db == r.2.2))
-  | "zzInvMod", [_, a, m] => do let (n, a) ← pw W a; let (_, m) ← pw W m; some (hw W n (zzDivModV 1 a m))
+  | "zzInvMod", [_, a, m] => do
+    let a ← wl W a; let m ← wl W m
+    let r := zzDivModW W (toWords W m.length 1) a m
+    if val W r != zzDivModV 1 (val W a) (val W m) then some "model-levels-differ" else some (hl W r)
   | "zzDivMod", [_, d, a, m] => do
-    let (n, d) ← pw W d; let (_, a) ← pw W a; let (_, m) ← pw W m; some (hw W n (zzDivModV d a m))
+    let d ← wl W d; let a ← wl W a; let m ← wl W m
+    let r := zzDivModW W d a m
+    if val W r != zzDivModV (val W d) (val W a) (val W m) then some "model-levels-differ" else some (hl W r)
   | "zzAlmostInvMod?", [a, m, b, k] => do
     let (n, a) ← pw W a; let (_, m) ← pw W m; let (n1, b) ← pw W b; let k ← nat k
     let r := zzAlmostInvModV a m
+    let rw := zzAlmostInvModW W (toWords W n a) (toWords W n m)
+    if val W rw.1 != r.1 || rw.2 != r.2 then some "model-levels-differ" else
     -- for gcd(a, mod) != 1 the header fixes b = 0 only (k is whatever the loop count was)
     some (b01 (n1 == n && b == r.1 && (k == r.2 || r.1 == 0)))
   -- ModelPpMul (window multiplication by a word, Karatsuba 1..9 and above, table squaring; word lists)
@@ -685,13 +698,19 @@ def modelW (W : Nat) (f : String) (args : List String) : Option String :=
   | "ppAddMulW", [_, b, a, x] => do let b ← wl W b; let a ← wl W a; let x ← nat x; some (pr (ppAddMulW W b a x))
   | "ppMul", [_, a, b] => do let a ← wl W a; let b ← wl W b; some (hl W (ppMul W a b))
   | "ppSqr", [a] => do let a ← wl W a; some (hl W (ppSqr W a))
+  -- ModelPpModOps (modular product / square, minimal polynomial of a residue)
+  | "ppMulMod", [pat, a, b, m] => do
+    let a ← wl W a; let b ← wl W b; let m ← wl W m
+    some (hl W (ppMulMod W a (if pat == "ab" || pat == "cab" then a else b) m))
+  | "ppSqrMod", [_, a, m] => do let a ← wl W a; let m ← wl W m; some (hl W (ppSqrMod W a m))
+  | "ppMinPolyMod", [a, m] => do let (n, a) ← pw W a; let (_, m) ← pw W m; some (hw W n (ppMinPolyModV a m))
   -- ModelPpDiv (table-driven polynomial division; word lists)
   | "ppDiv", [_, a, b] => do
     let a ← wl W a; let b ← wl W b
     let r := ppDiv W a b
     some (join [hl W r.1, hl W r.2])
   | "ppMod", [_, a, b] => do let a ← wl W a; let b ← wl W b; some (hl W (ppMod W a b))
-  | "ppRed", [a, m] => do let a ← wl W a; let m ← wl W m; some (hl W (ppMod W a m))
+  | "ppRed", [a, m] => do let a ← wl W a; let m ← wl W m; some (hl W (ppRed W a m))
   -- ModelBits, second part: comparison with a word, copies, octet load / store
   | "wwCmpW", [a, x] => do let a ← wl W a; let x ← nat x; some (join [toString (wwCmpW_safe W a x), toString (wwCmpW_fast W a x)])
   | "wwXor", [pat, a, b] => do
@@ -716,7 +735,7 @@ def modelW (W : Nat) (f : String) (args : List String) : Option String :=
   -- static reduction selected by gf2Create (Trinomial0 when (m - k) % W = 0, else Trinomial1; Pentanomial)
   | "gf2", m :: k :: l :: l1 :: pat :: op :: rest => do
     let m ← nat m; let k ← nat k; let l ← nat l; let l1 ← nat l1
-    if op != "mul" && op != "sqr" && op != "tr" && op != "qsolve" then none else
+    if !(["mul", "sqr", "tr", "qsolve", "from", "add", "sub", "neg", "inv", "div"].contains op) then none else
     let okd :=
       if k = 0 then false
       else if l = 0 then l1 = 0 && !(m % 8 = 0 || k ≥ m || m - k < W)
@@ -730,7 +749,26 @@ def modelW (W : Nat) (f : String) (args : List String) : Option String :=
       if o.length != no then none else
       let v := leNat o
       if (m % W = 0 ∨ v < 2 ^ m) ∧ v < 2 ^ (W * n) then some (toWords W n v) else none
+    if op == "from" then
+      let o ← rest.head?.bind parseHex
+      let r := gf2From W m (o.map (·.toNat))
+      if r.2 then
+        some (join [toString n, toString no, "1", hl W r.1, toHex ((gf2To W m r.1).map (fun v => UInt8.ofNat v))])
+      else some (join [toString n, toString no, "0"])
+    else
     let a ← rest.head?.bind el
+    if op == "add" || op == "sub" || op == "neg" || op == "inv" || op == "div" then
+      let b ← if op == "neg" || op == "inv" then some a else
+        (if (pat == "ab" || pat == "cab") && op != "div" then some a else (rest.drop 1).head?.bind el)
+      let mdw := toWords W (n + (if m % W = 0 then 1 else 0)) f
+      -- division: rest = [divident, a]
+      let r := match op with
+        | "add" | "sub" => gf2Add3 a b
+        | "neg" => gf2Neg2 a
+        | "inv" => gf2Inv W m mdw a
+        | _ => gf2Div W m mdw a b
+      some (join [toString n, toString no, hl W r, toHex ((gf2To W m r).map (fun v => UInt8.ofNat v))])
+    else
     if op == "tr" then some (join [toString n, toString no, b01 (gf2TrV f m (val W a))]) else
     if op == "qsolve" then
       let b ← (rest.drop 1).head?.bind el
